@@ -7,7 +7,7 @@ from vlib import Check
 RULE = ('histories generated from VERIF_SEED by checks/wl_gen.py (families: random walk, overwrite-under-snapshot chain, tombstone-over-deeper-value, '
         'disjoint ranges, case-folding comparator with randomly spelled keys, level-0 chains with partial manual compactions, one user key split over adjacent files with neighbouring-range compactions, data pushed down to the deepest level, seek-triggered compactions at level 0 and level 1 (>= 100 lookups charged to one table); 11 option sets incl. 4 comparators, compression, filters, tiny caches, no-mmap, reuse_logs, paranoid) run on the real database '
         '(ASan+UBSan build of the current tree) with a 64 KiB write buffer; every applied version edit, table content, get, iterator step and directory '
-        'listing is validated by lean tracecheck against the Lsm model (stepOk, invCheck, Lsm.get; the output of every non-trivial compaction is recomputed with Compaction.expectedOutput from the model copies of its inputs and compared entry by entry) and against the plain history of writes; '
+        'listing is validated by lean tracecheck against the Lsm model (stepOk, invCheck, Lsm.get; the level of every flush is recomputed with Policy.pickLevel, the input sets of every compaction with Policy.setupStage1, the output of every non-trivial compaction is recomputed with Compaction.expectedOutput from the model copies of its inputs and compared entry by entry) and against the plain history of writes; '
         'a history is non-trivial when it contains >= 1 flush and >= 1 compaction; distinct = distinct (family, options, counters)')
 
 
